@@ -132,7 +132,7 @@ def concrete_dict(key, data, variant=0):
     return t.to_dict()
 
 
-def write_trace_file(path, chains, data, samples, clusters=None, cluster_file=None):
+def write_trace_file(path, chains, data, samples, clusters=None, cluster_file=None, thin=1):
     """chains: list of (chain_num, [ (key, log_p_one, variant) ... ]) in completion (dict insertion) order.
     Written by the writer under test, create_main_run_output (with the cluster file when the input was clustered)."""
     from phyclone.process_trace import create_main_run_output
@@ -142,7 +142,8 @@ def write_trace_file(path, chains, data, samples, clusters=None, cluster_file=No
         trace = []
         for j, (key, lp, variant) in enumerate(entries):
             # iteration numbers as a real run records them: the post-burn-in state and iteration 0 both carry iter 0
-            trace.append({"iter": max(0, j - 1), "time": 0.0, "alpha": 1.0, "log_p_one": lp, "tree": concrete_dict(key, data, variant)})
+            # (with thinning the recorded iterations are 0, 0, thin, 2*thin, ...)
+            trace.append({"iter": max(0, j - 1) * thin, "time": 0.0, "alpha": 1.0, "log_p_one": lp, "tree": concrete_dict(key, data, variant)})
         results[num] = {"data": data, "samples": samples, "trace": trace, "chain_num": num}
     if clusters is not None and cluster_file is None:
         cluster_file = path + ".clusters.tsv"
